@@ -15,18 +15,18 @@ P = {
          "Random histories of write / empty write / consume_direct_write / overshoot attempts are replayed against a countdown model for N swept over 0..=70000 and u32/u64 extremes; every call result, every output byte and the finished flag are compared online.",
          "trusted: the model (a counter); refused calls are judged side-effect free through the model staying in agreement afterwards", "6/C04"),
  "C05": (False, "exploration", "ground-truth-by-construction oracle over every prefix of generated heads (+ Miri/ASan lane)", "", "", "6/C05"),
- "C06": (False, "exploration", "exhaustive decision-table monitor against an RFC 9112 reference rule", "", "", "6/C06"),
+ "C06": (True, "exploration", "exhaustive decision-table monitor against an RFC 9112 reference rule", "The whole decision table is executed: 9 methods x statuses 101..=999 x response version x 11 Content-Length shapes x 8 Transfer-Encoding shapes through the Flow API (1.4 M real heads with a body in the expected framing and a following response), and a 14-status table through the Call API to separate no-body from zero-length. Outcomes are compared with an independent restatement of RFC 9112 6.3. Exhaustive within that table; cells the statement leaves open are don't-care.", "trusted: wire::body_rule (my reading of the statement); don't-care cells listed in the evidence assumptions", "6/C06"),
  "C07": (False, "exploration", "generator-known coding vs decoder output under enumerated cut sets; decoder-transition hooks for coverage", "", "", "6/C07"),
  "C08": (False, "exploration", "reference min-of-three model over random read schedules with trailing bytes", "", "", "6/C08"),
  "C09": (False, "exploration", "typestate reference graph + hook invariant over random call histories with premature advances", "", "", "6/C09"),
- "C10": (False, "exploration", "exhaustive close-condition product vs disjunction model", "", "", "6/C10"),
+ "C10": (True, "exploration", "exhaustive close-condition product vs disjunction model", "All 32 close-condition vectors are realised by an exhaustive product of request version/Connection, Expect handshake outcome, response version/status/framing/Connection, each run as a complete exchange to Cleanup (through Redirect for 3xx), one-shot and under seeded random I/O schedules; verdict and reason at both exit states are compared with the disjunction. Floors require every vector on every feasible exit path.", "trusted: the exchange model (model.rs); reason texts are matched by keyword, unknown wording is not judged", "6/C10"),
  "C11": (False, "exploration", "handshake reference model over every look/give-up prefix, runs continued to completion", "", "", "6/C11"),
  "C12": (False, "fault_enumeration", "hostile byte enumeration + grammar mutations under panic/step-budget/copy-subsequence monitors (+ Miri/ASan lane)", "", "", "6/C12"),
  "C13": (False, "exploration", "tagged-header provenance monitor over redirect chains", "", "", "6/C13"),
  "C14": (False, "exploration", "independent RFC 3986 resolver as oracle over redirect chains", "", "", "6/C14"),
- "C15": (False, "exploration", "exhaustive method x status table monitor", "", "", "6/C15"),
+ "C15": (True, "exploration", "exhaustive method x status table monitor", "The full table 9 methods x 300..=399 x 2 policies x 3 body shapes x request version is run as real exchanges; redirect-state entry, reported status, follow/not-follow and the new method are compared with the table of the statement. Exhaustive.", "trusted: wire::redirect_method restating the table", "6/C15"),
  "C16": (False, "exploration", "tagged-header wire monitor across redirect depth", "", "", "6/C16"),
- "C17": (False, "exploration", "exhaustive request-validity product vs six-class model", "", "", "6/C17"),
+ "C17": (True, "exploration", "exhaustive request-validity product vs six-class model", "The product 5 versions x 9 methods x 5 Host shapes x 9 Content-Length shapes x 4 Transfer-Encoding shapes x despite x 3 APIs (48 600 cells) is written twice per cell and compared with the six-class model: reject = error twice and never ready, accept = bytes and ready. Exhaustive within the product.", "trusted: the six-class model; non-textual Host and without-body-constructor+framing-headers cells are don't-care", "6/C17"),
  "C18": (True, "exploration", "exhaustive sweep of n with a real write per n, strict decode of the wire",
          "For every n in 0..=3*10248+64 (enumerated) and random n up to 2^22 the advertised maximum is fed to a real write into an n-byte buffer; consumed must equal the advertised size, the bound and monotonicity are checked, the wire is strictly decoded.",
          "trusted: strict chunk decoder; fresh flow per n", "6/C18"),
